@@ -1,6 +1,7 @@
 //! Property oracles evaluated on the REAL crate's replies (independent of the model):
 //! a failure here is a concrete input on which the property fails on the real code.
 
+use crate::colfmt::*;
 use crate::expr::*;
 use crate::gen::WELL_KNOWN;
 use crate::util::*;
@@ -32,6 +33,7 @@ pub fn run(prop: &str, req: &str, rep: &str, outfile: &str) {
         "C13" => oracle_c13(&reqs, &reps, &mut fails, &mut checked, &mut nontrivial),
         "C19" => oracle_c19(&reqs, &reps, &mut fails, &mut checked, &mut nontrivial),
         "C14" => oracle_c14(&reqs, &reps, &mut fails, &mut checked, &mut nontrivial),
+        "C07" => oracle_c07(&reqs, &reps, &mut fails, &mut checked, &mut nontrivial),
         _ => {
             eprintln!("no oracle for {prop}");
             std::process::exit(2);
@@ -423,6 +425,55 @@ fn oracle_c14(
                     fail(fails, i, q, r, "encoding of the string is not the concatenation of the encodings of its characters".into());
                 }
                 nontrivial.insert(format!("{} {}", t[1], t[2].len()));
+            }
+            _ => {}
+        }
+    }
+}
+
+// ------------------------------------------------------------------------------------
+
+fn oracle_c07(
+    reqs: &[String],
+    reps: &[String],
+    fails: &mut Vec<Failure>,
+    checked: &mut u64,
+    nontrivial: &mut HashSet<String>,
+) {
+    for (i, (q, r)) in reqs.iter().zip(reps.iter()).enumerate() {
+        let t: Vec<&str> = q.split(' ').collect();
+        *checked += 1;
+        if r == "panic" {
+            fail(fails, i, q, r, "validator panicked".into());
+            continue;
+        }
+        match t[0] {
+            "validate" => {
+                let st = str_of_hex(t[2]).unwrap();
+                if let Some(want) = ref_category(t[1], &st) {
+                    if *r != (want as i32).to_string() {
+                        fail(fails, i, q, r, format!("documented grammar of {} says {} for {:?}", t[1], want, st));
+                    }
+                    if want {
+                        nontrivial.insert(q.clone());
+                    }
+                }
+            }
+            "is_valid" => {
+                let c = ColDef::parse(t[1]).unwrap();
+                let v = V::parse(t[2]).unwrap();
+                if let Some(want) = c.ref_valid(&v) {
+                    if *r != (want as i32).to_string() {
+                        fail(fails, i, q, r, format!("documented validity is {want}"));
+                    }
+                    nontrivial.insert(q.clone());
+                }
+            }
+            "guid_value" | "langs_value" => {
+                if !r.ends_with(" 1") {
+                    fail(fails, i, q, r, "a value the library builds itself is not valid for its category".into());
+                }
+                nontrivial.insert(q.clone());
             }
             _ => {}
         }
